@@ -9,5 +9,5 @@ func init() {
 		},
 		Explanation: "oracle O-Deriv (ref.CheckDerivation) on every accepted input; redundantly the input must be a member by an Earley recogniser",
 	})
-	tgUnit("C01", "gen", []string{"productive", "nullable", "prec", "prec-sep", "separators", "lalr", "uniform"}, 36, 500, 4, 8, 150, 12)
+	tgUnit("C01", "gen", []string{"productive", "nullable", "prec", "prec-sep", "separators", "lalr", "uniform", "longrule", "dup"}, 36, 500, 4, 8, 150, 12)
 }
